@@ -29,24 +29,25 @@ def addcols(px, ncols, rng):
 
 
 def mk(rng, table, mode, px, k):
-    cols = [["count"], ["count"], ["count", "x"], ["count", "x", "y"]][k % 4]
+    f = gen.feat(0, k)                        # independent feature choices per case (see gen.feat)
+    cols = [["count"], ["count"], ["count", "x"], ["count", "x", "y"]][f("cols", 4)]
     px = addcols(px, len(cols), rng)
     forms = ["frame", "iter", "dict", "iter_dict", "frame_shuffled", "list", "iter_unsorted", "iter_dict_unsorted"] + \
         (["array"] if mode == "symm" and cols == ["count"] else ["iter"])
-    form = forms[k % len(forms)]
-    mi = k % (len(METAS) + 1)
+    form = forms[f("form", len(forms))]
+    mi = f("meta", len(METAS) + 1)
     dts = [0, 1, 2] + ([3] if "x" in cols else []) + ([4] if "y" in cols else [])
     case = {"table": table, "mode": mode, "cols": cols, "px": px, "form": form,
             "chunks": compositions_with_empty(len(px), rng), "chunksize": rng.choice([1, 2, 3, 100]),
             "shuffle_seed": k, "meta_given": mi < len(METAS), "meta": canon_json(METAS[mi] if mi < len(METAS) else {}),
-            "assembly_given": k % 3 != 0, "assembly": ASSEMBLIES[k % len(ASSEMBLIES)] if k % 3 != 0 else "unknown",
-            "h5": k % len(coll_drivers.H5OPTS), "dt": dts[k % len(dts)],
-            "open": ["path", "uri", "handle"][k % 3], "group": "/" if k % 5 else "/sub/grp",
-            "scale": 4 if k % 7 == 3 else 1,           # float64 value columns holding multiples of 0.25
+            "assembly_given": f("asm", 3) != 0, "assembly": ASSEMBLIES[f("asmname", len(ASSEMBLIES))] if f("asm", 3) != 0 else "unknown",
+            "h5": f("h5", len(coll_drivers.H5OPTS)), "dt": dts[f("dt", len(dts))],
+            "open": ["path", "uri", "handle"][f("open", 3)], "group": "/" if f("group", 5) else "/sub/grp",
+            "scale": 4 if f("scale", 7) == 3 else 1,           # float64 value columns holding multiples of 0.25
             # row labels of the frames handed in, dtype of their ID columns, which per-chunk checks accompany ensure_sorted
-            "labels": ["default", "perm", "default", "offset"][(k // 3) % 4] if form != "array" else "default",
-            "id_dtype": ["int64", "int32", "int64", "uint8", "int16", "int8"][(k // 2) % 6],
-            "checks": [[True, True, True], [False, False, False], [True, False, False], [False, False, True]][(k // 5) % 4]}
+            "labels": ["default", "perm", "default", "offset"][f("labels", 4)] if form != "array" else "default",
+            "id_dtype": ["int64", "int32", "int64", "uint8", "int16", "int8"][f("iddt", 6)],
+            "checks": [[True, True, True], [False, False, False], [True, False, False], [False, False, True]][f("checks", 4)]}
     return "cr.roundtrip", case
 
 
